@@ -28,6 +28,9 @@ func c05MapFor(seed int64, batch, i int) *lexgen.GMap { return lexMapFor("C05", 
 
 // lexMapFor deterministically generates the i-th rule map of a batch (parent and child call it alike).
 func lexMapFor(id string, seed int64, batch, i int) *lexgen.GMap {
+	if id == "C07" && batch == 0 && i >= 1 && i <= 3 {
+		return c07GenMapFor(seed, batch, i)
+	}
 	if batch == 0 && i == 0 {
 		// fixed definition with lexer-elided rules: driven with a very long run of elided tokens
 		return &lexgen.GMap{States: []string{"Root"}, Rules: map[string][]lexgen.GRule{"Root": {
